@@ -1,1 +1,43 @@
 //! Verification hooks for the `noise` domain (`--cfg litep2p_verif` only).
+//!
+//! Re-exports of the Noise handshake / transport socket (they are `pub` inside the
+//! crate-private `crypto::noise` module) and a read-only projection of the socket's
+//! read/write cursors. Nothing in here changes the behaviour of the library.
+
+pub use crate::{
+    config::Role,
+    crypto::noise::{handshake, HandshakeTransport, NoiseSocket, MAX_FRAME_LEN},
+    error::NegotiationError,
+};
+
+/// Default read-ahead factor (`noise_read_ahead_frame_count`).
+pub const MAX_READ_AHEAD_FACTOR: usize = crate::crypto::noise::MAX_READ_AHEAD_FACTOR;
+
+/// Default write buffer size (`noise_write_buffer_size`).
+pub const MAX_WRITE_BUFFER_SIZE: usize = crate::crypto::noise::MAX_WRITE_BUFFER_SIZE;
+
+/// Domain separation prefix of the static key signature.
+pub const STATIC_KEY_DOMAIN: &str = crate::crypto::noise::STATIC_KEY_DOMAIN;
+
+/// Read-only projection of the cursors of a [`NoiseSocket`].
+#[derive(Debug, Clone, PartialEq, Eq)]
+pub struct NoiseSocketState {
+    /// 0 = `ReadData`, 1 = `ReadFrameLen`, 2 = `ProcessNextFrame`.
+    pub read_state: u8,
+    /// `max_read` of `ReadData` (0 in other states).
+    pub max_read: usize,
+    /// `nread`.
+    pub nread: usize,
+    /// `offset`.
+    pub offset: usize,
+    /// `current_frame_size`.
+    pub current_frame_size: Option<usize>,
+    /// `(offset, size, frame_size)` of a pending partially delivered frame.
+    pub pending: Option<(usize, usize, usize)>,
+    /// `(offset, encrypted_len)` of `WriteState::Writing`.
+    pub writing: Option<(usize, usize)>,
+    /// Length of the read buffer.
+    pub read_buffer_len: usize,
+    /// Length of the encrypt buffer.
+    pub encrypt_buffer_len: usize,
+}
